@@ -554,6 +554,10 @@ func (E *Engine) VerifyFunction(fn *ssa.Function, fc *FuncContract) {
 		}
 		x.bindGhost(penv, fc, st2)
 		x.bindResults(penv, results, x.tupleOf(results, res))
+		if x.nret < 4 {
+			x.nret++
+			E.addCover(x, st2, "returns")
+		}
 		for _, e := range fc.Ensures {
 			E.addPost(x, st2, penv, e)
 		}
@@ -626,7 +630,13 @@ func (x *Exec) obligeNamed(st *State, kind, label string, g *Term, src, where st
 func (E *Engine) addCover(x *Exec, st *State, what string) {
 	name := fmt.Sprintf("%s.%s#cover:%s", shortPkg(fnPkgPath(x.fn)), relName(x.fn), what)
 	o := E.getOblig(name, x, "cover", what, "precondition and type invariants are satisfiable (vacuity check: must be sat)", "")
-	o.Queries = append(o.Queries, &Query{Hyps: append([]*Term(nil), st.pc...), Goal: nil, Path: "entry"})
+	var hyps []*Term
+	for _, h := range flattenAnd(st.pc) {
+		if h.Op != "forall" && !(h.Op == "=>" && h.Args[1].Op == "forall") {
+			hyps = append(hyps, h)
+		}
+	}
+	o.Queries = append(o.Queries, &Query{Hyps: hyps, Goal: nil, Path: strings.Join(st.trace, ",")})
 }
 
 func ssaHash(fn *ssa.Function) string {
